@@ -848,3 +848,50 @@ def run_empty_ok(P, rep, rule="R-EMPTYOK"):
                      "an error can be returned after the window was selected and before the element loop (line %s): an empty selection would fail instead of rendering nothing/else" % bad[0])
         else:
             rep.ok(rule, nm, P.where(fn), "no failing exit between iter_array and the element loop")
+
+
+# ---------------------------------------------------------------------------------------
+# R-ATTRLOOP: the loop attributes are recognised in any order
+
+def run_attr_loop(P, rep, rule="R-ATTRLOOP"):
+    """ForBlock::parse / TableRowBlock::parse read their attributes in one token loop whose body compares the token with every
+    attribute keyword (`limit`, `offset`, `reversed` / `cols`, `limit`, `offset`): no keyword is recognised only at a fixed
+    position (which would reject `limit:3 reversed`)."""
+    import r_term
+    PB = "liquid_core::parser::block::ParseBlock"
+    specs = [("ForBlock", {"limit", "offset", "reversed"}), ("TableRowBlock", {"cols", "limit", "offset"})]
+    for ty, want in specs:
+        fn = P.fn_by_key("<liquid_lib::stdlib::blocks::for_block::%s as %s>::parse" % (ty, PB))
+        best = set()
+        for h, body in r_term.natural_loops(P, fn):
+            def pulls_tokens(b):
+                t_ = fn.blocks[b]["t"]
+                f_ = t_.get("f") if t_["k"] == "call" else None
+                if not f_:
+                    return False
+                if f_["name"].replace("::<'a>", "").endswith("TagTokenIter::next"):
+                    return True
+                return f_["id"].endswith("Iterator::next") and "self_ty" in f_ and "TagTokenIter" in P.tstr(fn.crate, f_["self_ty"])
+            if not any(pulls_tokens(b) for b in body):
+                continue
+            strs = set()
+            for b in body:
+                blk = fn.blocks[b]
+                for st in blk["s"]:
+                    if st[0] == "a":
+                        for k in ("o", "a", "b"):
+                            o = st[2].get(k)
+                            if isinstance(o, list) and o and o[0] == "k" and isinstance(o[1], dict) and "str" in o[1]:
+                                strs.add(o[1]["str"])
+                t = blk["t"]
+                for a in t.get("args", []) or []:
+                    if a[0] == "k" and isinstance(a[1], dict) and "str" in a[1]:
+                        strs.add(a[1]["str"])
+            if len(strs & want) > len(best & want):
+                best = strs
+        site = ty + " attributes"
+        missing = want - best
+        if missing:
+            rep.viol(rule, site, P.where(fn), "the attribute loop does not recognise %s: that keyword is only accepted at a fixed position (or not at all)" % sorted(missing))
+        else:
+            rep.ok(rule, site, P.where(fn), "one token loop recognises %s in any order" % sorted(want))
